@@ -106,6 +106,16 @@ CHECKS = {
    ref="DESIGN.md §5 C04"),
 }
 NOT_APPLICABLE = {
+ "C08": "needs an independent Part 6 layout implementation in the harness compared byte for byte through the uninterpreted primitives; expressible with the engine but not built in this revision (DESIGN §6); C07 only sees layout errors that break gopcua-to-gopcua traffic",
+ "C18": "the registration / dispatcher / handler kernel needs the dispatcher goroutine driven by a scripted peer inside the executor; pieces exist (pipe model, bounded preemption) but no harness was built (DESIGN §6)",
+ "C19": "as C18: the timeout select and the rcvLocker interplay need dispatcher + open() under bounded schedules; not built (DESIGN §6)",
+ "C21": "client response handling is reachable only through SecureChannel.SendRequest with a live dispatcher; from package opcua this needs a full scripted OpenSecureChannel exchange inside the executor, which was not built (DESIGN §6)",
+ "C22": "as C21 plus a secured channel with a scripted signing peer; the suspected defect (CreateSession swallows the signature error) is described in DESIGN §6 but not decided by a check",
+ "C26": "reconnect fault sequences are outside the technique; the acknowledgement kernel needs the publish loop with a transport stub, not built (DESIGN §6)",
+ "C27": "all interleavings of the publish loop with API callers: the bounded-preemption explorer exists (C11) but the harness with the loop and its transport stub was not built (DESIGN §6)",
+ "C28": "needs the monitor/subscription pump driven through ClientInterface stubs plus the server queue under schedules; not built (DESIGN §6)",
+ "C30": "needs the enabled policy/mode set threaded from server options to the OpenSecureChannel handling inside one harness; not built, the suspected defect is described in DESIGN §6 but not decided",
+ "C34": "linearizability over concurrent histories needs schedule exploration plus a history checker; only single-step register semantics would be decidable here and was not built (DESIGN §6)",
  "C25": "connection lifecycle under real TCP resets, server restarts and wall-clock outages: the quantified object is a fault sequence over the OS network stack and goroutine population, not a computation that can be encoded as solver queries within reach (DESIGN §6)",
  "C36": "data-race freedom is defined over the Go memory model / race detector happens-before relation on real schedules; the symbolic executor has no encoding of either (DESIGN §6)",
  "C37": "a finite matrix of real RSA/AES/x509/TCP executions; nothing in it is symbolic and with idealised crypto the result would say nothing about interoperability: enumeration of concrete runs is outside this technique (DESIGN §6)",
